@@ -303,6 +303,15 @@ impl<'a, SE: brush_core::ShellExtensions> Highlighter<'a, SE> {
             self.input_line,
         );
 
+        // Never move backwards or past the end of the line: a range that starts before what has
+        // already been covered is clamped, so spans stay ordered, non-overlapping and contiguous
+        // even when tokens arrive out of source order (the tokenizer yields a here-document's
+        // body before the tokens that follow the here-doc operator on its line).
+        let line_len = self.input_line.len();
+        let start = range.start.min(line_len).max(self.current_byte_index);
+        let end = range.end.min(line_len).max(start);
+        let range = start..end;
+
         // See if we need to cover a gap between this substring and the one that preceded it.
         if range.start > self.current_byte_index {
             let missing_kind = self.next_missing_kind.unwrap_or(HighlightKind::Comment);
@@ -575,6 +584,22 @@ mod tests {
             "# 爸爸 comment",
         ];
         for line in cases {
+            let highlighted = highlight_command(&shell, line, line.len());
+            assert_spans_are_valid(&highlighted);
+        }
+    }
+
+    #[tokio::test]
+    async fn test_highlight_here_document_spans_do_not_overlap() {
+        // The tokenizer yields a here-document's body and end tag before the tokens that
+        // follow the here-doc operator on its line; spans must still be ordered and contiguous.
+        let shell = brush_core::Shell::builder().build().await.unwrap();
+        for line in [
+            "cat <<EOF\nbody\nEOF\n",
+            "cat <<EOF; echo hi\nbody\nEOF\n",
+            "cat <<A <<B\na\nA\nb\nB\n",
+            "cat <<-EOF | wc\n\tx\nEOF",
+        ] {
             let highlighted = highlight_command(&shell, line, line.len());
             assert_spans_are_valid(&highlighted);
         }
